@@ -382,6 +382,9 @@ def wtokActs (lens : Nat → Nat) (s : St) (tok : String) : Option (List Act) :=
       | _, _ => none
     | _ => none
   else if tok.startsWith "s" then rest1.toNat?.map fun w => [.submit w]
+  -- `S<w>`: the caller's context has already ended when it reaches writeContext's first select: still one `submit`; what
+  -- the select then takes is observed (`+r<w>:0:cancel` = `cancel w`, or `+a` / `+q` = the semaphore / the hand-over won)
+  else if tok.startsWith "S" then rest1.toNat?.map fun w => [.submit w]
   else if tok.startsWith "c" then rest1.toNat?.map fun _ => []
   else if tok.startsWith "p" then
     match nums rest1 with
